@@ -302,13 +302,22 @@ def validate(traces, checks, module="FlowTrace.tla", cfg="FlowTrace.cfg", timeou
 
 # ------------------------------------------------------------------------------ known findings
 def load_known():
-    p = os.path.join(VERIF, "known_findings.jsonl")
+    """known_findings.txt: 'known: property=<id> <json>' and 'fixed: property=<id> <commit> <what>' lines."""
+    p = os.path.join(VERIF, "known_findings.txt")
     out = []
     if os.path.exists(p):
         for ln in open(p):
             ln = ln.strip()
-            if ln and not ln.startswith("#"):
-                out.append(json.loads(ln))
+            m = re.match(r"known: property=(\S+) (\{.*\})$", ln)
+            if m:
+                k = json.loads(m.group(2))
+                k["property"] = m.group(1)
+                k["status"] = "known"
+                out.append(k)
+                continue
+            m = re.match(r"fixed: property=(\S+) (\S+) (.*)$", ln)
+            if m:
+                out.append(dict(status="fixed", property=m.group(1), commit=m.group(2), what=m.group(3)))
     return out
 
 
